@@ -308,6 +308,11 @@ fn check_repaints(c: &Repaint) -> Verdict {
     let mut variants: Vec<(String, Vec<bool>)> = Vec::new();
     let paint = |name: &str, f: &dyn Fn(usize, bool) -> bool| -> (String, Vec<bool>) { (name.to_string(), (0..w * h).map(|i| f(i, base[i])).collect()) };
     variants.push(paint("all solid modules light", &|i, b| if is_solid(i) { false } else { b }));
+    // the same, but the rows that carry a horizontal clock track stay as they are (their first module
+    // belongs to the clock track as well as to the solid column)
+    let clock_row = |r: usize| (0..w).all(|x| !matches!(lay[r * w + x], ModuleKind::Data(..))) && (0..w).any(|x| matches!(lay[r * w + x], ModuleKind::Clock(_)));
+    variants.push(paint("all solid modules outside the clock rows light", &|i, b| if is_solid(i) && !clock_row(i / w) { false } else { b }));
+    variants.push(paint("all solid modules outside the clock rows light, clock rows inverted", &|i, b| if clock_row(i / w) { !b } else if is_solid(i) { false } else { b }));
     variants.push(paint("all clock modules inverted", &|i, b| if is_clock(i) { !b } else { b }));
     variants.push(paint("all finder modules inverted", &|i, b| if nondata(i) { !b } else { b }));
     variants.push(paint("all finder modules dark", &|i, b| if nondata(i) { true } else { b }));
@@ -321,6 +326,7 @@ fn check_repaints(c: &Repaint) -> Verdict {
         if full_row(r) && (0..w).all(|x| is_solid(r * w + x) || x == w - 1 || full_col(x)) && r > start {
             let (a, b) = (start, r);
             variants.push(paint(&format!("solid modules of the band of rows {}..={} light", a, b), &|i, bit| if is_solid(i) && (a..=b).contains(&(i / w)) { false } else { bit }));
+            variants.push(paint(&format!("solid modules of the band of rows {}..={} (outside its clock row) light", a, b), &|i, bit| if is_solid(i) && (a..=b).contains(&(i / w)) && !clock_row(i / w) { false } else { bit }));
             variants.push(paint(&format!("finder modules of the band of rows {}..={} inverted", a, b), &|i, bit| if nondata(i) && (a..=b).contains(&(i / w)) { !bit } else { bit }));
             start = r + 1;
         }
